@@ -50,6 +50,20 @@ theorem dispatch_entry_points :
 
 /-! ## parser_total -/
 
+/-- (round 3) the call sites the model hard-codes are the ones in the source: `":"` for the preamble, `" "` for names and value lines,
+    `": "` for statement lines; action / first / third index from tokens 1 / 2 / 3 with the name table and bound of that dimension;
+    the value in token 4 (T/O) and 5 (R); writes indexed `[d1][a][d3]`; an index token is `*`, else a declared name, else a number;
+    declared names are bound with last-wins assignment and only a single token is tried as a number. -/
+theorem dispatch_sites :
+    Gen.Dispatch.tokenizeDelims = [":", ":", " ", " ", ": ", ": ", ": ", ": "] ∧
+    Gen.Dispatch.indexSites = [("1", "actionMap_", "D2"), ("2", "d1map", "D1"), ("3", "d3map", "D3"), ("1", "actionMap_", "D2"), ("2", "d1map", "D1"),
+      ("1", "actionMap_", "D2"), ("1", "actionMap_", "A"), ("2", "stateMap_", "S"), ("3", "stateMap_", "S")] ∧
+    Gen.Dispatch.valueSites = ["4", "5"] ∧
+    Gen.Dispatch.writeSites = ["M[d1][a][d3]=val;", "M[d1][a][i]=v[i];", "M[d1][a][i]=v[i];", "R[s][a][s1]=val;"] ∧
+    Gen.Dispatch.resolutionOrder = ["star", "map", "number"] ∧
+    Gen.Dispatch.nameLastWins = true ∧ Gen.Dispatch.singleTokenNumeric = true := by decide
+
+
 /-- The operational model is a total function into `Except`: token, line and next-line accesses are all
     `at?` (the code's `.at()`), number conversions return errors, the main loop is structural.  So on every
     text the parser either returns tables or raises one of the three exception classes — it cannot get stuck. -/
